@@ -14,11 +14,13 @@
 import LyonVerif.Lemmas.PathViews
 import LyonVerif.Lemmas.PathMore
 import LyonVerif.Lemmas.PathCommands
+import LyonVerif.Lemmas.PathReversedModel
 import LyonVerif.Model.Path.Polygon
 import LyonVerif.Model.Path.Commands
 
 set_option linter.unusedSectionVars false
 set_option linter.unusedVariables false
+set_option linter.unusedSimpArgs false
 
 namespace Lyon.C14
 open Lyon.Path
@@ -155,7 +157,7 @@ theorem concat_iter (n : Nat) (p q : Prog S) (hp : ValidProg n p) (hq : ValidPro
 /-- `PathBuffer`: a path appended with the plain builder reads back, through `get`, as exactly
 the storage `Path::builder()` would have produced on its own (whatever the buffer already
 holds); `adjust_id` never underflows; the ids are relative to the entry. -/
-theorem path_buffer_get_partial {A : Type} (b : PathBuffer S) (prog : List (Call (Pt S) A)) :
+theorem path_buffer_get_plain {A : Type} (b : PathBuffer S) (prog : List (Call (Pt S) A)) :
     ∃ b' ids, b.addPlain prog = some (b', ids, b.paths.length) ∧
       b'.get b.paths.length = some (buildPlain prog) := by
   have hge := run_ids_ge (S := S) ⟨b.points, b.verbs, zeroPt⟩ prog b.points.length (by simp)
@@ -165,13 +167,14 @@ theorem path_buffer_get_partial {A : Type} (b : PathBuffer S) (prog : List (Call
   simp only [List.append_nil] at h1 h2
   simp [PathBuffer.get, plain_run_emit, h1, h2, plain_builder_storage, stored]
 
-/-- The same for an entry written with attributes, mirroring the code as it is: the storage is
-the right one, but the descriptor says `num_attributes = 0`. -/
-theorem path_buffer_get_attributes_storage (b : PathBuffer S) (n : Nat) (prog : Prog S)
+/-- `path_buffer_get`: a path appended with `with_attributes(n)` reads back, through `get`, as
+exactly the storage `Path::builder_with_attributes(n)` would have produced on its own, attribute
+count included — so every view theorem (`iter_eq_spec`, `with_attributes_eq`, …) applies to the
+entry.  (False before /repo commit 61889d0a, which made `build` record the attribute count.) -/
+theorem path_buffer_get (b : PathBuffer S) (n : Nat) (prog : Prog S)
     (hv : ValidProg n prog) (b' : PathBuffer S) (ids : List Nat) (idx : Nat)
     (h : b.addWithAttributes n prog = some (b', ids, idx)) :
-    idx = b.paths.length ∧
-    b'.get idx = some { stored n prog with numAttributes := 0 } := by
+    idx = b.paths.length ∧ b'.get idx = some (stored n prog) := by
   have hr := run_emit (S := S) ⟨⟨b.points, b.verbs, zeroPt⟩, n, List.replicate n default⟩ prog hv.2
     (by simp)
   simp only [PathBuffer.addWithAttributes] at h
@@ -193,6 +196,12 @@ theorem path_buffer_get_attributes_storage (b : PathBuffer S) (n : Nat) (prog : 
       subst hb
       simp [PathBuffer.get, hr, ← hidx, h1, h2, stored]
 
+/-- … in particular the entry iterates with its attributes. -/
+theorem path_buffer_get_with_attributes (b : PathBuffer S) (n : Nat) (prog : Prog S)
+    (hv : ValidProg n prog) (b' : PathBuffer S) (ids : List Nat) (idx : Nat)
+    (h : b.addWithAttributes n prog = some (b', ids, idx)) :
+    (b'.get idx).bind PathData.iterWithAttributes = some (specEvents (prog.map aCall)) := by
+  simp [(path_buffer_get b n prog hv b' ids idx h).2, with_attributes_eq n prog hv]
 
 /-! ### polygons -/
 
@@ -279,54 +288,123 @@ theorem idpolygon_event_eq_iter {π : Type} (pts : List π) (closed : Bool) (evs
         have := poly_iterGo_event closed r [p] p p (by simp) (by simp) (by simp) evs' hr k e he
         simpa [Nat.add_comm 1 k] using this
 
-/-- `Polygon::event` is NOT `Polygon::iter` by random access: on a closed 4-gon it answers `End`
-at id 3 where `iter` yields the last `Line`, and at id 4 (where `iter` yields `End`) it indexes
-past the slice. -/
-theorem polygon_views_agree_witness :
-    let pts : List (Int × Int) := [(0, 0), (1, 0), (1, 1), (0, 1)]
-    (Poly.iter pts true).map (·[3]?) = some (some (Event.line (1, 1) (0, 1))) ∧
-    Poly.polygonEvent pts true 3 = some (Event.end_ (0, 1) (0, 0) true) ∧
-    (Poly.iter pts true).map (·[4]?) = some (some (Event.end_ (0, 1) (0, 0) true)) ∧
-    Poly.polygonEvent pts true 4 = none := by decide
+/-- `Polygon::event` is `IdPolygon::event` (since /repo commit 8a7d6750; it used to answer `End`
+at `len - 1` and to index past the slice at `len`). -/
+theorem polygonEvent_eq {π : Type} (pts : List π) (closed : Bool) (k : Nat) :
+    Poly.polygonEvent pts closed k = Poly.idPolygonEvent pts closed k := rfl
 
-/-- `Polygon::id_iter` of the empty polygon yields `Begin` and no `End`, while `iter` yields
-nothing. -/
-theorem polygon_views_agree_witness_empty (closed : Bool) :
-    Poly.idIter 0 closed = some [Event.begin 0] ∧ Poly.iter ([] : List Nat) closed = some [] := by
-  cases closed <;> decide
+theorem poly_idIterGo_spec (len : Nat) (closed : Bool) (m : Nat) :
+    ∀ idx fuel, 1 ≤ idx → idx + m = len → m + 1 ≤ fuel →
+      Poly.idIterGo 0 len closed fuel idx = some (specFrom (some (0, idx - 1))
+        (((List.range' idx m).map fun q => Call.line q ()) ++ [Call.end_ (A := Unit) closed])) := by
+  induction m with
+  | zero =>
+    intro idx fuel h1 h2 h3
+    obtain ⟨f, rfl⟩ : ∃ f, fuel = f + 1 := ⟨fuel - 1, by omega⟩
+    have e1 : ¬ (0 = len) := by omega
+    have e2 : ¬ (idx = 0) := by omega
+    have e3 : ¬ (idx < len) := by omega
+    have e4 : idx = len := by omega
+    subst e4
+    have e5 : 1 ≤ idx := h1
+    cases f with
+    | zero => simp [Poly.idIterGo, Poly.idIterAt, Poly.idIterAt.csub1, e1, e2, e5, specFrom]
+    | succ f =>
+      have e6 : ¬ (idx + 1 = 0) := by omega
+      have e7 : ¬ (idx + 1 < idx) := by omega
+      have e8 : ¬ (idx + 1 = idx) := by omega
+      simp [Poly.idIterGo, Poly.idIterAt, Poly.idIterAt.csub1, e1, e2, e5, e6, e7, e8, specFrom]
+  | succ m ih =>
+    intro idx fuel h1 h2 h3
+    obtain ⟨f, rfl⟩ : ∃ f, fuel = f + 1 := ⟨fuel - 1, by omega⟩
+    have e1 : ¬ (0 = len) := by omega
+    have e2 : ¬ (idx = 0) := by omega
+    have e3 : idx < len := by omega
+    have h := ih (idx + 1) f (by omega) (by omega) (by omega)
+    simp [Poly.idIterGo, Poly.idIterAt, Poly.idIterAt.csub1, e1, e2, e3, h1, h, specFrom,
+      List.range'_succ]
 
-/-- `FromPolyline` over no points yields a lone `End` (not a well-formed sequence). -/
-theorem from_polyline_witness (closed : Bool) :
-    Poly.fromPolyline (0 : Int) closed [] = [Event.end_ 0 0 closed] ∧
-    ¬ WellFormed (Poly.fromPolyline (0 : Int) closed []) := by
-  cases closed <;> simp [Poly.fromPolyline, Poly.fromPolylineGo, WellFormed, wellFormedFrom]
+/-- `Polygon::id_iter` is `IdPolygon::iter` over the ids `0 … len-1` — for every length, the
+empty polygon included (nothing; before /repo commit e1fd69dd it yielded a lone `Begin`). -/
+theorem polygon_id_iter_eq (len : Nat) (closed : Bool) :
+    Poly.idIter len closed = some (specEvents (polyProg (List.range len) closed)) := by
+  cases len with
+  | zero => simp [Poly.idIter, Poly.idIterGo, Poly.idIterAt, polyProg, specEvents, specFrom]
+  | succ n =>
+    have h := poly_idIterGo_spec (n + 1) closed n 1 (n + 2) (by omega) (by omega) (by omega)
+    have hr : List.range (n + 1) = 0 :: List.range' 1 n := by
+      rw [List.range_eq_range', List.range'_succ]
+    have hstep : Poly.idIterGo 0 (n + 1) closed (n + 2 + 1) 0
+        = (Poly.idIterGo 0 (n + 1) closed (n + 2) 1).map fun t => Event.begin 0 :: t := by
+      simp [Poly.idIterGo, Poly.idIterAt]
+    simp only [Poly.idIter, hstep, h]
+    simp [hr, polyProg, specEvents, specFrom]
 
-/-- What does hold for `Polygon::event` in the current code: away from the last two ids it is
-`IdPolygon::event` (which is `iter` by random access, `idpolygon_event_eq_iter`).
-Missing for the full statement `polygon_views_agree`: ids `len - 1` and `len` (finding
-C14-polygon-event-end-index), and the empty polygon's `id_iter` (C14-empty-polygon-id-iter). -/
-theorem polygon_views_agree_partial {π : Type} (pts : List π) (closed : Bool) (k : Nat)
-    (hk : k + 1 < pts.length) :
-    Poly.polygonEvent pts closed k = Poly.idPolygonEvent pts closed k := by
-  by_cases h0 : k = 0
-  · simp [Poly.polygonEvent, Poly.idPolygonEvent, h0]
-  · have h1 : k ≠ pts.length - 1 := by omega
-    have h2 : k ≠ pts.length := by omega
-    have h3 : 1 ≤ pts.length := by omega
-    simp [Poly.polygonEvent, Poly.idPolygonEvent, h0, h1, h2, h3, Poly.polygonEvent.csub,
-      Poly.idPolygonEvent.csub]
+theorem poly_resolve_spec {π : Type} (closed : Bool) (pts r pre : List π) (prev first : π)
+    (hpts : pts = pre ++ r) (hne : 1 ≤ pre.length) (hlast : pts[pre.length - 1]? = some prev)
+    (hfirst : pts[0]? = some first) :
+    resolveAll (fun i => pts[i]?) (fun i => pts[i]?)
+        (specFrom (some (0, pre.length - 1))
+          (((List.range' pre.length r.length).map fun q => Call.line q ()) ++ [Call.end_ (A := Unit) closed]))
+      = some (specFrom (some (first, prev)) ((r.map fun q => Call.line q ()) ++ [Call.end_ (A := Unit) closed])) := by
+  induction r generalizing pre prev with
+  | nil => simp [specFrom, resolveAll, resolveEvent, hlast, hfirst]
+  | cons q r ih =>
+    have hq : pts[pre.length]? = some q := by simp [hpts]
+    have h := ih (pre ++ [q]) q (by simp [hpts]) (by simp) (by simpa using hq) 
+    simp only [List.length_append, List.length_singleton, Nat.add_sub_cancel] at h
+    simp [specFrom, resolveAll, resolveEvent, hlast, hq, List.range'_succ, h]
 
-/-- `FromPolyline` over at least one point yields the polygon's specification events. -/
-theorem from_polyline_eq_spec {π : Type} (zero p : π) (r : List π) (closed : Bool) :
-    Poly.fromPolyline zero closed (p :: r) = specEvents (polyProg (p :: r) closed) := by
+/-- `polygon_views_agree`: for every polygon (any length, the empty one included, open or
+closed) `iter` / `path_events` yield the specification events of `begin p0, line p1 …,
+end(closed)`; `id_iter` resolved through the polygon's own store yields the same; and `event(k)`
+is the `k`-th of them for every valid id `k` (ids `len - 1` and `len` included).
+(False before /repo commits 8a7d6750 and e1fd69dd.) -/
+theorem polygon_views_agree {π : Type} (pts : List π) (closed : Bool) :
+    Poly.iter pts closed = some (specEvents (polyProg pts closed)) ∧
+    (Poly.idIter pts.length closed).bind (resolveAll (fun i => pts[i]?) (fun i => pts[i]?))
+      = some (specEvents (polyProg pts closed)) ∧
+    ∀ k e, (specEvents (polyProg pts closed))[k]? = some e → Poly.polygonEvent pts closed k = some e := by
+  refine ⟨polygon_iter_eq_spec pts closed, ?_, ?_⟩
+  · rw [polygon_id_iter_eq]
+    cases pts with
+    | nil => simp [polyProg, specEvents, specFrom, resolveAll]
+    | cons p r =>
+      have hr : List.range (r.length + 1) = 0 :: List.range' 1 r.length := by
+        rw [List.range_eq_range', List.range'_succ]
+      have h := poly_resolve_spec closed (p :: r) r [p] p p (by simp) (by simp) (by simp) (by simp)
+      simp at h
+      simp [polyProg, specEvents, specFrom, resolveAll, resolveEvent, hr, h]
+  · intro k e he
+    rw [polygonEvent_eq]
+    exact idpolygon_event_eq_iter pts closed _ (polygon_iter_eq_spec pts closed) k e he
+
+/-- `FromPolyline` yields the polygon's specification events for every point sequence, the empty
+one included (no event; before /repo commit 468b373e it yielded a lone `End`). -/
+theorem from_polyline_eq_spec {π : Type} (zero : π) (pts : List π) (closed : Bool) :
+    Poly.fromPolyline zero closed pts = specEvents (polyProg pts closed) := by
   have h : ∀ (r : List π) (cur first : π), Poly.fromPolylineGo closed r cur first false
       = specFrom (some (first, cur)) ((r.map fun q => Call.line q ()) ++ [Call.end_ (A := Unit) closed]) := by
     intro r
     induction r with
     | nil => intro cur first; simp [Poly.fromPolylineGo, specFrom]
     | cons q r ih => intro cur first; simp [Poly.fromPolylineGo, specFrom, ih]
-  simp [Poly.fromPolyline, Poly.fromPolylineGo, polyProg, specEvents, specFrom, h]
+  cases pts with
+  | nil => simp [Poly.fromPolyline, Poly.fromPolylineGo, polyProg, specEvents, specFrom]
+  | cons p r => simp [Poly.fromPolyline, Poly.fromPolylineGo, polyProg, specEvents, specFrom, h]
 
+/-- the polygon's events are well-formed (so all its views are) -/
+theorem polygon_wellformed {π : Type} [DecidableEq π] (pts : List π) (closed : Bool) :
+    WellFormed (specEvents (polyProg pts closed)) := by
+  apply specEvents_wellFormed
+  cases pts with
+  | nil => simp [WellNested, polyProg, wellNestedFrom]
+  | cons p r =>
+    have h : ∀ r : List π, wellNestedFrom true (((r.map fun q => Call.line q ()) ++ [Call.end_ (A := Unit) closed])) = true := by
+      intro r; induction r with
+      | nil => simp [wellNestedFrom]
+      | cons q r ih => simpa [wellNestedFrom] using ih
+    simpa [WellNested, polyProg, wellNestedFrom] using h r
 
 /-! ### command buffers -/
 
@@ -357,19 +435,7 @@ theorem commands_event_eq_iter {A : Type} (prog : List (Call Nat A)) (h : WellNe
   exact Cmd.mapM_event_emit _ prog none [] 0 (by simp) h (by intro f0 c0 h; cases h)
 
 
-/-! ### path-buffer witness, first endpoint, no out-of-bounds read -/
-
-/-- The path-buffer entry of the property does NOT read back with its attributes in the current
-code: one attribute, `M 0 0 [1] L 5 0 [2] L 5 5 [3] Z` — the entry claims 0 attributes and its
-`iter` yields the attribute slot `(1, 0)` as a point. -/
-theorem path_buffer_get_witness :
-    let prog : Prog Int := [.begin (0, 0) [1], .line (5, 0) [2], .line (5, 5) [3], .end_ true]
-    let entry := ((PathBuffer.new (S := Int)).addWithAttributes 1 prog).bind fun r => r.1.get 0
-    entry.map (·.numAttributes) = some 0 ∧
-    entry.bind PathData.iter ≠ some (specEvents prog) ∧
-    entry.bind PathData.iter = some
-      [Event.begin (0, 0), Event.line (0, 0) (1, 0), Event.line (1, 0) (5, 0),
-       Event.end_ (5, 0) (0, 0) true] := by decide
+/-! ### first endpoint, no out-of-bounds read -/
 
 /-- `first_endpoint` of a built path: `None` for the empty path, otherwise the first `begin`
 with its attributes. -/
@@ -395,7 +461,7 @@ theorem first_endpoint_eq (n : Nat) (prog : Prog S) (hv : ValidProg n prog) :
 /-- No out-of-bounds read: on a path produced by a builder from a valid program, every
 `List` index / pointer read / checked subtraction / assertion performed by `iter`,
 `iter_with_attributes`, `id_iter` + `path[id]` + `path.attributes(id)` and `first_endpoint`
-succeeds (the views return `some`).  (`reversed` and `last_endpoint`: tie and oracle only.) -/
+succeeds (the views return `some`).  (`reversed`, `last_endpoint`: `no_oob_reversed` below.) -/
 theorem no_oob (n : Nat) (prog : Prog S) (hv : ValidProg n prog) :
     (buildWithAttributes n prog).isSome ∧
     (stored n prog).iter.isSome ∧
@@ -405,6 +471,141 @@ theorem no_oob (n : Nat) (prog : Prog S) (hv : ValidProg n prog) :
     (stored n prog).firstEndpoint.isSome := by
   simp [builder_total n prog hv, iter_eq_spec n prog hv, with_attributes_eq n prog hv,
     id_iter_resolves n prog hv, id_iter_resolves_attributes n prog hv, first_endpoint_eq n prog hv]
+
+/-! ### `Reversed` -/
+
+/-- `Path::reversed().with_attributes()` on a built path yields exactly the specification
+reversal of the path's events (sub-paths in reverse order, each traversed backwards, attributes
+travelling with their endpoints), and every index it computes stays inside the storage. -/
+theorem reversed_eq_spec (n : Nat) (prog : Prog S) (hv : ValidProg n prog) :
+    (stored n prog).reversedWithAttributes
+      = some (reverseEvents (specEvents (prog.map aCall))) := by
+  have hn : nestState false prog = some false :=
+    (wellNestedFrom_iff_nestState false prog).mp hv.1
+  have h := reversedGo_prefix (stored n prog) zeroPt (List.replicate n default) (by simp [stored])
+    prog.reverse [] false none false (by simp [stored]) (by simpa using hn) (by simpa [stored] using hv.2)
+    (by simp)
+  simpa [PathData.reversedWithAttributes, stored, reverseEvents, specEvents] using h
+
+/-- `Path::reversed()` (positions only) is the same with the attributes dropped. -/
+theorem reversed_eq_spec_points (n : Nat) (prog : Prog S) (hv : ValidProg n prog) :
+    (stored n prog).reversed
+      = some ((reverseEvents (specEvents (prog.map aCall))).map (withPoints Prod.fst)) := by
+  simp [PathData.reversed, reversed_eq_spec n prog hv]
+
+theorem spec_aCall_wellformed [DecidableEq S] (n : Nat) (prog : Prog S) (hv : ValidProg n prog) :
+    WellFormed (specEvents (prog.map aCall)) :=
+  specEvents_wellFormed _ (by simpa [WellNested, wellNestedFrom_map_aCall] using hv.1)
+
+/-- `reversed_wellformed`: the reversed view of a built path is a well-formed event sequence. -/
+theorem reversed_wellformed [DecidableEq S] (n : Nat) (prog : Prog S) (hv : ValidProg n prog) :
+    ∃ evs, (stored n prog).reversedWithAttributes = some evs ∧ WellFormed evs :=
+  ⟨_, reversed_eq_spec n prog hv, reverseEvents_wellFormed _ (spec_aCall_wellformed n prog hv)⟩
+
+/-- `reversed_involutive`: reversing a built path, rebuilding it (`Reversed::into_path`, i.e.
+feeding the reversed events to `builder_with_attributes(n)`) and reversing again yields the
+original path's events with their attributes — no assertion fires and no read leaves the
+storage on the way. -/
+theorem reversed_involutive [DecidableEq S] (n : Nat) (prog : Prog S) (hv : ValidProg n prog) :
+    ((stored n prog).reversedIntoPath.bind PathData.reversedWithAttributes)
+      = (stored n prog).iterWithAttributes := by
+  have hwf := spec_aCall_wellformed n prog hv
+  have hrwf := reverseEvents_wellFormed _ hwf
+  have hok : ∀ e ∈ reverseEvents (specEvents (prog.map aCall)), evOk n e = true :=
+    evOk_revGo n _ false none
+      (by intro e he
+          exact evOk_spec n prog none hv.2 (by simp) e (by simpa [specEvents] using he))
+      (by simp)
+  obtain ⟨h1, h2, h3⟩ := spec_eventToCall n _ none hrwf hok
+  have hv' : ValidProg n ((reverseEvents (specEvents (prog.map aCall))).map eventToCall) := ⟨h2, h3⟩
+  simp only [PathData.reversedIntoPath, reversed_eq_spec n prog hv, Option.bind_some]
+  have hs : (stored n prog).numAttributes = n := rfl
+  rw [hs, builder_total n _ hv']
+  have h1' : specEvents (((reverseEvents (specEvents (prog.map aCall))).map eventToCall).map aCall)
+      = reverseEvents (specEvents (prog.map aCall)) := h1
+  rw [Option.bind_some, reversed_eq_spec n _ hv', h1', with_attributes_eq n prog hv,
+    reverseEvents_involutive _ hwf]
+
+
+/-! ### `last_endpoint` -/
+/-- a non-empty well-nested program ends with `end`, after a prefix that is inside a sub-path -/
+theorem wellNested_last (prog : Prog S) (h : WellNested prog) (hne : prog ≠ []) :
+    ∃ pre cl, prog = pre ++ [Call.end_ cl] ∧ nestState false pre = some true := by
+  have hn : nestState false prog = some false := (wellNestedFrom_iff_nestState false prog).mp h
+  cases hr : prog.reverse with
+  | nil => simp at hr; exact absurd hr hne
+  | cons c rp =>
+    have hp : prog = rp.reverse ++ [c] := by
+      have := congrArg List.reverse hr; simpa using this
+    rw [hp, nestState_append] at hn
+    cases hb : nestState false rp.reverse with
+    | none => simp [hb] at hn
+    | some b =>
+      simp only [hb, Option.bind_some] at hn
+      cases b <;> cases c <;> simp [nestState] at hn
+      exact ⟨rp.reverse, _, hp, hb⟩
+
+/-- `last_endpoint` of a built path: `None` for the empty path; otherwise the current position
+after the last sub-path — its last endpoint, or its first point if it was closed — with that
+endpoint's attributes. -/
+theorem last_endpoint_eq (n : Nat) (prog : Prog S) (hv : ValidProg n prog) :
+    (stored n prog).lastEndpoint =
+      some (match (specEvents (prog.map aCall)).getLast? with
+            | some (Event.end_ l f cl) => some (if cl then f else l)
+            | _ => none) := by
+  by_cases hne : prog = []
+  · subst hne; simp [PathData.lastEndpoint, stored, emitPts, specEvents, specFrom]
+  · obtain ⟨pre, cl, hp, hb⟩ := wellNested_last prog hv.1 hne
+    subst hp
+    have ha := hv.2
+    rw [attrsOk_append, Bool.and_eq_true] at ha
+    have hiss := stateAfter_isSome (none : Option (APt S × APt S)) (pre.map aCall) true
+      (by rw [nestState_map_aCall]; exact hb)
+    obtain ⟨⟨fstp, cur, ca⟩, hσ⟩ : ∃ x, stateAfter none (pre.map aCall) = some x :=
+      Option.isSome_iff_exists.mp hiss
+    obtain ⟨hfa, hca, A, hA⟩ := tail_inv n pre none zeroPt (List.replicate n default) [] true
+      (by simpa using hb) ha.1 (by intro _ _ _ h; cases h) fstp cur ca hσ
+    simp only [List.nil_append] at hA
+    have hfal := firstAfter_length n zeroPt (List.replicate n default) pre ha.1 (by simp)
+    have hspec : (specEvents ((pre ++ [Call.end_ cl]).map aCall)).getLast?
+        = some (Event.end_ (cur, ca) fstp cl) := by
+      simp [specEvents, specFrom_append_state, hσ, specFrom, aCall]
+    rw [hspec]
+    cases cl with
+    | false =>
+      have hpts : (stored n (pre ++ [Call.end_ false])).points = A ++ (endpointPts cur ca ++ []) := by
+        simp [stored, emitPts_append, emitPts, hA]
+      have hE := endpointA_at (stored n (pre ++ [Call.end_ false])) A [] cur ca hpts (by simpa [stored] using hca)
+      have hlen : (stored n (pre ++ [Call.end_ false])).points.length = A.length + 1 + attribStride n := by
+        simp [hpts, endpointPts_length, hca]; omega
+      have hemp : (stored n (pre ++ [Call.end_ false])).points.isEmpty = false := by
+        simp [hpts, endpointPts]
+      simp [PathData.lastEndpoint, hemp, hlen, csub_add, hE, show (stored n (pre ++ [Call.end_ false])).numAttributes = n from rfl]
+    | true =>
+      have hpts : (stored n (pre ++ [Call.end_ true])).points
+          = (A ++ endpointPts cur ca) ++ (endpointPts fstp.1 fstp.2 ++ []) := by
+        simp [stored, emitPts_append, emitPts, hA, hfa]
+      have hfl : fstp.2.length = n := by rw [← hfa]; exact hfal
+      have hE := endpointA_at (stored n (pre ++ [Call.end_ true])) (A ++ endpointPts cur ca) [] fstp.1 fstp.2 hpts
+        (by simpa [stored] using hfl)
+      have hlen : (stored n (pre ++ [Call.end_ true])).points.length
+          = (A ++ endpointPts cur ca).length + 1 + attribStride n := by
+        simp [hpts, endpointPts_length, hca, hfl]; omega
+      have hemp : (stored n (pre ++ [Call.end_ true])).points.isEmpty = false := by
+        simp [hpts, endpointPts]
+      simp only [List.length_append] at hE
+      simp [PathData.lastEndpoint, hemp, hlen, csub_add, hE, show (stored n (pre ++ [Call.end_ true])).numAttributes = n from rfl]
+
+
+/-- No out-of-bounds read, second part: `reversed`, `reversed().into_path()` reversed again, and
+`last_endpoint` also stay inside the storage. -/
+theorem no_oob_reversed [DecidableEq S] (n : Nat) (prog : Prog S) (hv : ValidProg n prog) :
+    (stored n prog).reversedWithAttributes.isSome ∧
+    (stored n prog).reversed.isSome ∧
+    ((stored n prog).reversedIntoPath.bind PathData.reversedWithAttributes).isSome ∧
+    (stored n prog).lastEndpoint.isSome := by
+  simp [reversed_eq_spec n prog hv, reversed_eq_spec_points n prog hv, reversed_involutive n prog hv,
+    with_attributes_eq n prog hv, last_endpoint_eq n prog hv]
 
 /-! ### non-vacuity: the hypotheses are satisfiable by non-trivial programs -/
 
@@ -421,9 +622,7 @@ example : WellNested (polyProg [(0 : Int), 1, 2] true) := by decide
 example : WellNested ([.begin 0 (), .quad 1 2 (), .end_ true] : List (Call Nat Unit)) := by decide
 example : ∀ q ∈ [exampleProg, exampleProg], ValidProg 3 q := by
   intro q hq; simp at hq; subst hq; exact ⟨by decide, by decide⟩
-example : ((0 : Nat) + 1 < [(0 : Int), 1, 2].length) := by decide
-/-- the reversed view of the model on the example (no theorem about `Reversed` yet: it is tied
-and oracle-checked only) -/
+/-- the reversed view of the model on the example, computed -/
 example : ((stored 3 exampleProg).reversedIntoPath.bind PathData.reversedWithAttributes)
     = (stored 3 exampleProg).iterWithAttributes := by decide
 
